@@ -81,11 +81,18 @@ func convertError(err error) error {
 		return err
 	}
 
+	// A batch error carries one p4.Error per update; an UNKNOWN status without
+	// details is an ordinary failure and must not look like an empty batch error.
+	details := st.Details()
+	if len(details) == 0 {
+		return err
+	}
+
 	p4RtError := &P4RuntimeError{
 		errors: make([]*p4.Error, 0),
 	}
 
-	for _, detailItem := range st.Details() {
+	for _, detailItem := range details {
 		p4Error, ok := detailItem.(*p4.Error)
 		if !ok {
 			p4Error = &p4.Error{
